@@ -6,16 +6,17 @@ export GOFLAGS=-mod=mod GOPROXY=off GOSUMDB=off GOTOOLCHAIN=local; unset GOWORK
 id=$1; pkg=$2; run=$3; shift 3
 wt=/tmp/wt-$id; out=/tmp/out-$id
 cd $wt || exit 2
+git -C $wt checkout -- . && git -C $wt clean -fdq && git -C $wt apply $out/patch.diff || { echo "PATCH DOES NOT APPLY"; exit 1; }
 git -C $wt diff > /tmp/confirm-$id.diff
 cmp -s /tmp/confirm-$id.diff $out/patch.diff || echo "NOTE: worktree diff differs from patch.diff (using worktree state)"
 go build ./... || { echo "BUILD FAILS"; exit 1; }
 echo "== suite with change"; go test -vet=off -count=1 -timeout 25m ./... 2>&1 | grep -v '^ok\|no test files' ; echo "suite exit=${PIPESTATUS[0]}"
 cp $out/demo/*_test.go $wt/$pkg/
 echo "== demo WITH change"; go test -vet=off -count=1 -run "$run" ./$pkg/ 2>&1 | tail -4
-git -C $wt stash -q
+git -C $wt apply -R $out/patch.diff
 cp $out/demo/*_test.go $wt/$pkg/ 2>/dev/null
 echo "== demo WITHOUT change"; go test -vet=off -count=1 -run "$run" ./$pkg/ 2>&1 | tail -3
 rm -f $wt/$pkg/*demo*_test.go
-git -C $wt stash pop -q
+git -C $wt apply $out/patch.diff
 for f in $out/demo/*_test.go; do rm -f $wt/$pkg/$(basename $f); done
 git -C $wt status --short
